@@ -186,7 +186,12 @@ func (h *VHist) nsUse(op VOp, obs *nsObserved) error {
 		e.Properties[c] = 1
 		e.References[c] = c
 	}
-	if err := ds.StoreEntities([]*Entity{e}); err != nil {
+	if op.Via != "" {
+		// the write arrives as a transaction through a contextual store (ExecuteTransaction() of a javascript transform)
+		if err := h.storeVia(op.Via).ExecuteTransaction(&Transaction{DatasetEntities: map[string][]*Entity{h.DsName(op.DS): {e}}}); err != nil {
+			return err
+		}
+	} else if err := ds.StoreEntities([]*Entity{e}); err != nil {
 		return err
 	}
 	obs.IDs[curies[0]] = e.InternalID
@@ -279,6 +284,9 @@ func VReplayNs(task engine.SeqTask) (res engine.SeqResult) {
 	}()
 	vWorldMaxHists = 150
 	w := vWorld()
+	// identifiers an earlier history on this world left pending (a rejected batch does that) are committed first:
+	// every history starts with an empty rolling id transaction, as a freshly started hub does
+	_ = w.Store.commitIDTxn()
 	h := w.NewHist()
 	if err := h.EnsureDatasets("A", "B"); err != nil {
 		res.HarnessEr = err.Error()
@@ -286,7 +294,11 @@ func VReplayNs(task engine.SeqTask) (res engine.SeqResult) {
 	}
 	chk := &VCheck{H: h}
 	obs := newNsObserved()
+	poisoned := false
 	for i, raw := range task.Hist {
+		if poisoned {
+			break
+		}
 		var op VOp
 		_ = json.Unmarshal(raw, &op)
 		if i == len(task.Hist)-1 {
@@ -300,7 +312,9 @@ func VReplayNs(task engine.SeqTask) (res engine.SeqResult) {
 						chk.fail("C13:panic-after-write-error", fmt.Sprintf("a write after an earlier failed write panicked: %v", r), nil)
 						vWorkerWorld = nil
 					} else if r != nil {
-						panic(r)
+						chk.fail("C13:write-panics", fmt.Sprintf("a valid write with new identifiers panicked: %v", r), nil)
+						vWorkerWorld = nil
+						poisoned = true
 					}
 				}()
 				if err := h.nsUse(op, obs); err != nil {
@@ -331,6 +345,17 @@ func VReplayNs(task engine.SeqTask) (res engine.SeqResult) {
 					chk.fail("C13:compact-without-error", err.Error(), nil)
 				}
 			}()
+		case "baduse":
+			// a batch the store must reject (null reference value); its new identifiers stay pending
+			ds := w.Dsm.GetDataset(h.DsName(op.DS))
+			c1, _ := w.Store.GetNamespacedIdentifier(fmt.Sprintf("http://bad.h%s/x%d", h.Tag, op.N), nil)
+			c2, _ := w.Store.GetNamespacedIdentifier(fmt.Sprintf("http://bad.h%s/p%d", h.Tag, op.N), nil)
+			e := NewEntity(c1, 0)
+			e.References[c2] = nil
+			if err := ds.StoreEntities([]*Entity{e}); err == nil {
+				res.HarnessEr = "the batch with a null reference was accepted"
+				return
+			}
 		case "restart":
 			w.Restart()
 		}
@@ -387,7 +412,9 @@ func VReplayNs(task engine.SeqTask) (res engine.SeqResult) {
 		nm.lock.Unlock()
 		sort.Strings(mo)
 		res.Key += "|faulted|memonly=" + strings.Join(mo, ",")
-		// ... and the rolling id transaction (a failed commit leaves it discarded)
+	}
+	{
+		// the rolling id transaction is hidden state too: pending after a rejected batch, discarded after a failed commit
 		idt := "none"
 		w.Store.idmux.Lock()
 		if w.Store.idtxn != nil {
@@ -635,7 +662,7 @@ func init() {
 	})
 
 	engine.RegisterCheck("C13", func(r *engine.Run) {
-		r.Rule = "ENUM: every URI of a grammar (2 schemes x 3 authorities x 6 paths x 5 fragments x 6 local parts, incl. empty local part and colons) is compacted and expanded through every API that does so; SEQ: every order of first use of 4 URI sets over 2 datasets with restarts, up to the stated depth, checking bijection, permanence and persisted=memory after every step; CRASH: real SIGKILL at every durable commit of such histories; SCHED: asserters of the same/different expansions, writers introducing the same new identifiers, and context readers/serialisers under every interleaving up to the preemption bound, with a happens-before monitor on the namespace map; distinct = distinct canonical states / outcomes"
+		r.Rule = "ENUM: every URI of a grammar (2 schemes x 3 authorities x 6 paths x 5 fragments x 6 local parts, incl. empty local part and colons) is compacted and expanded through every API that does so; SEQ: every order of first use of 4 URI sets over 2 datasets (as batches, and as transactions through a contextual store the way ExecuteTransaction() of a javascript transform issues them) with restarts and a rejected batch, up to the stated depth, checking bijection, permanence and persisted=memory after every step; CRASH: real SIGKILL at every durable commit of such histories; SCHED: asserters of the same/different expansions, writers introducing the same new identifiers, and context readers/serialisers under every interleaving up to the preemption bound, with a happens-before monitor on the namespace map; distinct = distinct canonical states / outcomes"
 		r.Assumptions = []string{"badger transactions are linearizable and commits atomic w.r.t. process kill"}
 		// ENUM
 		pool := &engine.Pool{N: 1, Args: []string{"worker", "c13-enum"}, Timeout: 120 * time.Second}
@@ -663,6 +690,9 @@ func init() {
 			alpha = append(alpha, VOp{K: "use", DS: "A", N: n})
 		}
 		alpha = append(alpha, VOp{K: "use", DS: "B", N: 1}, VOp{K: "use", DS: "B", N: 2}, VOp{K: "restart"})
+		// writes arriving as transactions through a contextual store (created when the history began / just now), and a
+		// rejected batch that leaves identifiers pending
+		alpha = append(alpha, VOp{K: "use", DS: "A", N: 3, Via: "ctx0"}, VOp{K: "use", DS: "B", N: 0, Via: "ctx"}, VOp{K: "baduse", DS: "A", N: 1})
 		depth, budget := 4, 90
 		if !r.Quick() {
 			depth, budget = 6, 1800
